@@ -35,6 +35,11 @@ def _cls(ctx, modq, suffix):
 def parse_table(ctx, fn):
     """wire name -> {'locals': {local: [(value text, facts)]}} plus structure facts of the parse loop."""
     an = get_analysis(ctx)
+    # the parameter's value: the local holding <params>[<name>][0], whatever it is called (renamed back to `val` for the rules below)
+    from .common import recover_names
+    PRM = fn.params()[1]
+    fn = recover_names(ctx, fn, [("val", "def", lambda v: isinstance(v, ast.Subscript) and isinstance(v.value, ast.Subscript) and norm.text(v.value.value) == PRM
+                                  and isinstance(v.slice, ast.Constant) and v.slice.value == 0)])
     g, mf, res = an.get(fn)
     loops = [n for n in g.stmt_nodes() if n.kind == "for" and norm.text(n.ast.iter) == fn.params()[1]]
     ctx.require(len(loops) == 1, f"{fn.qualname}: parameter loop not found")
@@ -114,10 +119,10 @@ def rule_parse_closure(ctx):
             g, mf, res, loop, pv, table = parse_table(ctx, fn)
             count += 1
             # duplicate parameter -> raise, before anything else in the loop body
-            dup = [n for n in g.stmt_nodes() if n.kind == "test" and ("lt", ("c", 1), ("e", f"len(params[{pv}])"), True) in norm.atoms(n.ast, True, res)]
+            dup = [n for n in g.stmt_nodes() if n.kind == "test" and ("lt", ("c", 1), ("e", f"len({fn.params()[1]}[{pv}])"), True) in norm.atoms(n.ast, True, res)]
             ok = len(dup) == 1 and all(m.kind == "stmt" and isinstance(m.ast, ast.Raise) for m, lab in dup[0].succ if lab and lab[0] == "T")
             vals = [n for n in g.stmt_nodes() if n.kind == "stmt" and isinstance(n.ast, ast.Assign) and norm.text(n.ast.targets[0]) == "val" and
-                    norm.text(n.ast.value) == f"params[{pv}][0]"]
+                    norm.text(n.ast.value) == f"{fn.params()[1]}[{pv}][0]"]
             ok = ok and len(vals) == 1 and g.always_preceded_by(vals[0], lambda x: x is dup[0])
             ctx.ob(f"{c.name}.parse: repeated parameter raises", bool(ok), "duplicate-parameter test missing or not first", fn.loc())
             # unknown parameter -> raise: the F edge of the last name test leads to a raise
@@ -520,7 +525,17 @@ def rule_rsv1(ctx):
     sm = wsp.methods["sendMessage"]
     ctx.analysed(sm)
     g, mf, res = an.get(sm)
-    sets = [n for n in g.stmt_nodes() if n.kind == "stmt" and isinstance(n.ast, ast.Assign) and norm.text(n.ast.targets[0]) == "sendCompressed"]
+    # the compression decision: the local that is set True on one side and False on the other of the extension test (whatever it is called)
+    flags = {}
+    for n in g.stmt_nodes():
+        if n.kind == "stmt" and isinstance(n.ast, ast.Assign) and len(n.ast.targets) == 1 and isinstance(n.ast.targets[0], ast.Name) and isinstance(n.ast.value, ast.Constant) \
+                and isinstance(n.ast.value.value, bool):
+            flags.setdefault(n.ast.targets[0].id, set()).add(n.ast.value.value)
+    both = [k_ for k_, v_ in flags.items() if v_ == {True, False} and any(
+        ("is", "self._perMessageCompress", ("c", None), False) in (mf.at(n) or ()) for n in g.stmt_nodes() if n.kind == "stmt" and isinstance(n.ast, ast.Assign)
+        and norm.text(n.ast.targets[0]) == k_)]
+    SC = both[0] if len(both) == 1 else "sendCompressed"
+    sets = [n for n in g.stmt_nodes() if n.kind == "stmt" and isinstance(n.ast, ast.Assign) and norm.text(n.ast.targets[0]) == SC]
     ok = len(sets) == 2
     for n in sets:
         t = norm.text(n.ast.value) == "True"
